@@ -21,6 +21,10 @@ func sessionWorld(r *Rng) (Config, bool) {
 	if groups {
 		cfg.DefaultDomains = nil
 		opts["allowed_groups"] = []string{"eng"}
+		if r.Chance(1, 3) {
+			// two kinds of allow rule on one upstream: a user may be admitted by either at sign-in
+			opts["allowed_email_domains"] = []string{"example.com"}
+		}
 	}
 	if r.Chance(1, 3) {
 		opts["skip_auth_regex"] = []string{"^/public/.*"}
